@@ -1,4 +1,5 @@
 mod c02;
+mod c05;
 mod common;
 mod wire;
 
@@ -15,6 +16,7 @@ fn main() -> anyhow::Result<()> {
     let thorough = args.get(5).map(|s| s == "thorough").unwrap_or(false);
     match prop {
         "C02" => c02::run(seed, n, &out, thorough),
+        "C05" => c05::run(seed, n, &out, thorough),
         _ => anyhow::bail!("unknown property {prop}"),
     }
 }
